@@ -100,7 +100,11 @@ def check_rows(run, rows, where):
                 run.cov["traces_validated_against_impl"] += 1
         else:
             parts = [p_ for p_ in s.lstrip(".").split(".") if p_] if "." in s else []
-            if cpython_accepts(s) or any(ord(c) > 127 for c in s) or any(cpython_accepts(p_) for p_ in parts):
+            # NaN / Inf are words, not digit strings: with a separator inside they are ordinary symbols
+            # (a separator after the complete word, as in NaN_, is not decided by the documentation)
+            word_with_sep = (("_" in s or "," in s) and strip_sep(s).lstrip("+-").lower() in ("nan", "inf", "infinity")
+                             and "NaN" not in s and "Inf" not in s)
+            if not word_with_sep and (cpython_accepts(s) or any(ord(c) > 127 for c in s) or any(cpython_accepts(p_) for p_ in parts)):
                 n_open += 1          # not decided by the documentation
                 continue
             if cls != spec:
@@ -526,6 +530,17 @@ def main_c24(run):
                     p_ = "{" + pe + (" = " if dbg else "") + conv + ((":" + spec) if spec is not None else "") + "}"
                     cases.append((h, p_, True))
                     cases.append(("a" + h + "b", "a" + p_ + "b", True))
+    # every pair (and, around a named escape, every triple) of literal-text pieces side by side, alone and
+    # next to a field: the reader's state between pieces (\\N{...}, doubled braces, backslashes)
+    for a in FLIT:
+        for b in FLIT:
+            cases.append((a[0] + b[0], a[1] + b[1], True))
+            cases.append(("{x}" + a[0] + b[0], "{x}" + a[1] + b[1], True))
+            if "N{" in a[0] or "N{" in b[0]:
+                for c in FLIT:
+                    cases.append((a[0] + b[0] + c[0], a[1] + b[1] + c[1], True))
+    for a in FLIT:
+        cases.append((a[0] + "}", a[1] + "}", False))       # a stray closing brace after each piece
     for _ in range(1500 if q else 60000):
         h, p_, good = gen_fstring(rng)
         cases.append((h, p_, good))
